@@ -31,7 +31,8 @@ log; nothing else is instrumented.  The log is judged after the run:
 Violation keys name the mechanism, not the symptom's case: `<early|drift>:stale-timer-duration`
 (timer.duration != doist.tock when cycle 0 begins), `<early|drift>:stale-last-reading`
 (the pacing timer begins the run with _last != _start; diagnosis only, nothing is decided on
-these attributes), else `early:cycle-start` / `drift:lateness-accumulates`;
+these attributes), `<early|drift>:tock-assigned-mid-run` (a doer assigned a different doist.tock while the run
+was in progress: both clauses stay measured against the tock the run STARTED with), else `early:cycle-start` / `drift:lateness-accumulates`;
 `wait-loop:no-progress`, `escape:do:<Exception>`.
 
 All script values are multiples of 1/64 s (coarse families) or of 2**-16 s (the "fine"
@@ -52,19 +53,22 @@ ID = "C07"
 LEVEL = "exploration"
 TECHNIQUE = ("trace oracle over a scripted fake clock: real Doist.do() paced by a clock whose true elapsed time and wall "
              "reading are separate; cycle starts (Doist.recur wrapper) judged exactly in a dyadic time domain")
-RULE = ("a case = (tock at construction, optional tock assigned afterwards, idle time / backward wall step before do(), "
+RULE = ("a case = (tock at construction, optional tock assigned afterwards before do(), optional doist.tock assignments by a doer "
+        "at given cycles while the run is in progress (smaller and larger), idle time / backward wall step before do(), "
         "per-cycle work times, per-sleep overshoots and undershoots (sleep returns early, down to no time at all), backward wall steps during given sleeps / at given clock reads / "
         "between given cycles, stalls of the reading over given sleeps, end by limit or by the doer finishing, one or two "
         "runs of the same Doist).  Enumerated: every single-event script (one event of each kind at every position, every "
         "size class) for 4 tocks x 6 cycles, and on a 2**-16 s grid the work of one cycle ending r before its deadline for "
         "r from 15 us to a few ms at every position; random beyond, by family (steady, overshoot, undershoot, longwork, stall, backstep-sleep, "
-        "backstep-between, backstep-read, predo, retock, rerun, mix, fine = 2**-16 s grid) with 5-60 cycles.  Non-trivial = at least 3 cycle "
+        "backstep-between, backstep-read, predo, retock, rerun, mix, fine = 2**-16 s grid, midtock) with 5-60 cycles.  Non-trivial = at least 3 cycle "
         "starts judged, at least one of them waited for, and at least one perturbation present; distinct = by family, tock, "
         "the set of perturbation kinds and the per-cycle waited/late pattern.")
 ASSUMPTIONS = [
     "time values are multiples of 1/64 s (coarse families) or of 2**-16 s (fine families: waits down to 15 us) on an "
     "integer wall base - exact IEEE arithmetic either way; tock > 0",
     "the wall clock never jumps forward (excluded by the statement); backward steps and stalls are permanent losses",
+    "a doist.tock assigned by a doer while do() is running does not change the pacing of that run: both clauses are measured "
+    "against the tock read just before do() is called (the statement's 'tock the scheduler has when the run starts')",
     "'the run started' = the moment do() is called for the never-early bound; the lossless bound is measured from the "
     "begin of cycle 0 (both are the choices that demand least)",
     "doers are trivial Doer subclasses whose recur consumes scripted true time; hio is single threaded",
@@ -82,9 +86,12 @@ BUDGET_S = {"quick": 30, "thorough": 400}
 REQUIRE = {"early_checks": 5000, "lossless_checks": 2000, "retrograde_reads_seen": 200, "stalled_sleeps": 100,
            "cycles_late_no_wait": 200, "overshot_sleeps": 500, "runs_with_tock_reassigned": 20,
            "runs_with_backstep_before_run": 20, "submillisecond_waits": 300, "submillisecond_wait_sizes": 8,
-           "undershot_sleeps": 500, "sleeps_that_took_no_time": 50, "cycles_waited_through_a_short_sleep": 300}
+           "undershot_sleeps": 500, "sleeps_that_took_no_time": 50, "cycles_waited_through_a_short_sleep": 300,
+           "runs_with_tock_assigned_mid_run": 300, "mid_run_tock_assignments_smaller": 150,
+           "mid_run_tock_assignments_larger": 150}
 EXHAUSTIVE = {"quick": "all single-event scripts: tock in {1,4,16,33}/64 x 6 cycles x event kind in {overshoot, undershoot (x1, x2, with work), work, "
-                       "sleep-step, read-step, between-step, stall, pre-run step, tock reassigned} x every position x 5 sizes; fine grid "
+                       "sleep-step, read-step, between-step, stall, pre-run step, tock reassigned before the run, tock assigned by a doer "
+                       "mid-run (6 values; with work, with a backstep, twice)} x every position x 5 sizes; fine grid "
                        "(2**-16 s): work of one cycle ending r before its deadline, r in 10 sizes from 15 us to 4.6 ms, every "
                        "position, 3 tocks",
               "thorough": "same single-event space with 10 cycles and 8 tocks; fine grid with 20 sizes of r and 6 tocks"}
@@ -92,7 +99,7 @@ EXHAUSTIVE = {"quick": "all single-event scripts: tock in {1,4,16,33}/64 x 6 cyc
 U = 64.0                    # case values are integers in units of 1/64 s
 HOUR = 64 * 3600
 FAMILIES = ["steady", "overshoot", "undershoot", "longwork", "stall", "backstep_sleep", "backstep_between", "backstep_read",
-            "predo", "retock", "rerun", "mix", "fine"]
+            "predo", "retock", "rerun", "mix", "fine", "midtock"]
 
 
 # --------------------------------------------------------------------------
@@ -100,7 +107,7 @@ FAMILIES = ["steady", "overshoot", "undershoot", "longwork", "stall", "backstep_
 # --------------------------------------------------------------------------
 def blank(fam, q, n, unit=64):
     return {"fam": fam, "unit": unit, "tock0": q, "retock": None, "idle": 0, "prestep": 0, "enter_work": 0, "n": n,
-            "work": [0] * n, "overs": [], "unders": {}, "sleep_steps": {}, "read_steps": {}, "cycle_steps": {}, "stalls": {},
+            "work": [0] * n, "overs": [], "unders": {}, "midtock": {}, "sleep_steps": {}, "read_steps": {}, "cycle_steps": {}, "stalls": {},
             "use_limit": False, "runs": 1, "between_idle": 0, "between_step": 0, "ndoers": 1}
 
 
@@ -134,6 +141,14 @@ def single_event_cases(tier):
             if q2 != q:
                 c = blank("enum-retock", q, n); c["retock"] = q2; yield c
         c = blank("enum-retock", None, n); c["retock"] = q; yield c
+        # a doer assigns doist.tock while the run is in progress: pacing must keep the tock the run started with
+        for pos in range(n - 1):
+            for q2 in sorted({1, max(1, q // 2), max(1, q - 1), q + 1, 2 * q, 8 * q} - {q}):
+                c = blank("enum-midtock", q, n); c["midtock"] = {str(pos): q2}; yield c
+                c = blank("enum-midtock-work", q, n); c["midtock"] = {str(pos): q2}; c["work"] = [max(1, q // 4)] * n; yield c
+            c = blank("enum-midtock-backstep", q, n); c["midtock"] = {str(pos): max(1, q // 2)}
+            c["sleep_steps"] = {str(pos + 1): q}; yield c
+            c = blank("enum-midtock-twice", q, n); c["midtock"] = {str(pos): 4 * q, str(pos + 1): 1}; yield c
 
 
 FINE = 65536                 # fine grid: multiples of 2**-16 s (15 us); 31 + 16 bits, still exact in doubles
@@ -207,7 +222,9 @@ def rand_case(rng, fam, tier):
     def some(limit, lo=1, hi=4):
         return rng.sample(range(limit), min(limit, rng.randint(lo, hi)))
 
-    feats = {fam} if fam != "mix" else {f for f in FAMILIES[1:9] if rng.random() < 0.45}
+    feats = {fam} if fam not in ("mix", "midtock") else {f for f in FAMILIES[1:9] if rng.random() < (0.45 if fam == "mix" else 0.25)}
+    if fam == "midtock" or (fam == "mix" and rng.random() < 0.1):
+        feats.add("midtock")
     if fam == "mix":
         if rng.random() < 0.1:
             feats.add("retock")
@@ -236,6 +253,12 @@ def rand_case(rng, fam, tier):
         c["retock"] = q2
         if rng.random() < 0.2:
             c["tock0"] = None
+    if "midtock" in feats:
+        c["midtock"] = {str(i): rng.choice([1, max(1, q // 4), max(1, q // 2), max(1, q - 1), q + 1, 2 * q, 5 * q, 16 * q])
+                        for i in some(n - 1, 1, 3)}
+        c["use_limit"] = False          # the virtual-tyme limit would follow the new tock; end by the doer finishing
+        if rng.random() < 0.15:
+            feats.add("rerun")
     if "rerun" in feats:
         c["runs"] = 2
         c["between_idle"] = rng.choice([0, 1, q, 10 * q])
@@ -269,6 +292,7 @@ class RunRecord:
         self.cycle_steps = cycle_steps
         self.k = 0
         self.k0 = k0                    # cycles of earlier runs (indexes the work script)
+        self.mid_assigned = []          # (cycle, tock) assigned to doist.tock by a doer while the run was in progress
         self.timer_duration = "unset"   # doist.timer.duration seen when cycle 0 begins
         self.last_vs_start = None       # diagnosis only: timer._last - timer._start when cycle 0 begins
 
@@ -317,8 +341,10 @@ def teardown(ctx):
 class WorkDoer(doing.Doer):
     """Runs `count` cycles (or for ever when count is None); each recur consumes scripted true time."""
 
-    def __init__(self, clock=None, work=(), count=None, enter_work=0.0, **kwa):
+    def __init__(self, clock=None, work=(), count=None, enter_work=0.0, midtock=None, **kwa):
         super().__init__(**kwa)
+        self.midtock = midtock or {}      # {cycle index: tock assigned to the doist during that cycle}
+        self.doist = None
         self.clock = clock
         self.work = work
         self.count = count
@@ -334,6 +360,10 @@ class WorkDoer(doing.Doer):
         k = (rec.k0 + rec.k) if rec is not None else self.ran
         if k < len(self.work):
             self.clock.work(self.work[k])
+        if k in self.midtock and self.doist is not None:
+            self.doist.tock = self.midtock[k]            # takes effect for the virtual tyme; pacing keeps the start tock
+            if rec is not None:
+                rec.mid_assigned.append((rec.k, self.midtock[k]))
         self.ran += 1
         return self.count is not None and self.ran >= self.count
 
@@ -475,19 +505,22 @@ def run_case(case, ctx):
     cycle_steps = {int(k): u(v) for k, v in case["cycle_steps"].items()}
     feats = sorted(f for f in ("overs", "unders", "sleep_steps", "read_steps", "cycle_steps", "stalls") if case.get(f)) + \
         (["work"] if any(case["work"]) else []) + (["prestep"] if case["prestep"] else []) + \
-        (["retock"] if case["retock"] is not None else []) + (["rerun"] if case["runs"] > 1 else [])
+        (["retock"] if case["retock"] is not None else []) + (["rerun"] if case["runs"] > 1 else []) + \
+        (["midtock"] if case.get("midtock") else [])
     sig_runs = []
     total_cs = 0
     any_wait = False
     with Installed(clock, [timing, doing]):
         kw = {} if case["tock0"] is None else {"tock": u(case["tock0"])}
         use_limit = case["use_limit"]
-        wd = WorkDoer(clock=clock, work=work, count=None if use_limit else n, enter_work=u(case["enter_work"]))
+        wd = WorkDoer(clock=clock, work=work, count=None if use_limit else n, enter_work=u(case["enter_work"]),
+                      midtock={int(k): u(v) for k, v in case.get("midtock", {}).items()})
         doers = [wd]
         if case["ndoers"] > 1:
             doers.append(IdleDoer(tock=2 * (u(case["retock"]) if case["retock"] is not None else
                                             (u(case["tock0"]) if case["tock0"] is not None else 1 / 32))))
         doist = doing.Doist(real=True, doers=doers, **kw)
+        wd.doist = doist
         if case["retock"] is not None:
             doist.tock = u(case["retock"])
             ctx.count("runs_with_tock_reassigned", case["runs"])
@@ -531,11 +564,19 @@ def run_case(case, ctx):
             if stale_last:
                 ctx.count("runs_timer_last_reading_differs_from_start")
 
-            def diag(kind, stale=stale, stale_last=stale_last):
+            mid = [a for a in rec.mid_assigned if a[1] != tock]
+            if mid:
+                ctx.count("runs_with_tock_assigned_mid_run")
+                ctx.count("mid_run_tock_assignments_smaller", sum(1 for a in mid if a[1] < tock))
+                ctx.count("mid_run_tock_assignments_larger", sum(1 for a in mid if a[1] > tock))
+
+            def diag(kind, stale=stale, stale_last=stale_last, mid=mid):
                 if stale:
                     return kind + ":stale-timer-duration"
                 if stale_last:
                     return kind + ":stale-last-reading"
+                if mid:
+                    return kind + ":tock-assigned-mid-run"
                 return "early:cycle-start" if kind == "early" else "drift:lateness-accumulates"
 
             stats, viols = judge(clock.log, i0, t_do, tock, ctx, diag)
